@@ -74,6 +74,8 @@ reg("C03",
         funcs=["parse_tls_plaintext", "parse_tls_raw_record"] + _RWH, timeout=600)
       for n in ("ccs_0", "ccs_1", "ccs_2", "alert_1", "alert_2", "alert_3", "appdata_0", "appdata_1", "appdata_3",
                 "heartbeat_2", "heartbeat_3", "heartbeat_4", "heartbeat_6")],
+    H("c03", "c03_handshake_list_wiring", timeout=1500, mem=20, bounds="handshake record payload <= 9 B symbolic length (<= 2 messages), types and 24-bit lengths symbolic; all 15 body parsers stubbed",
+      stubs=["15 parse_tls_handshake_msg_* body parsers (marker stubs)"], funcs=_RWH + ["parse_tls_message_handshake"]),
     )
 
 # ------------------------------------------------------------------------------------------------ C04
@@ -263,6 +265,7 @@ reg("C10",
     H("c10", "c10_hs_clientkeyexchange", bounds="16 B input, type 16 concrete, header fields symbolic", funcs=_DH),
     H("c10", "c10_hs_hello_verify_request", bounds="18 B input, type 3 concrete, header fields symbolic, cookie length symbolic", funcs=_DH + ["parse_dtls_hello_verify_request"]),
     *[H("c10", "c10_hs_unsupported_%s" % t, bounds="15 B input, unsupported type 0x%s, header fields symbolic" % t, funcs=_DH) for t in ("00", "04", "0c", "14", "ff")],
+    H("c10", "c10_body_client_hello_cookie33", bounds="ClientHello body of concrete shape with a 33-byte cookie, contents symbolic", funcs=_DH + ["parse_dtls_client_hello"], timeout=600),
     H("c10", "c10_body_client_hello_39", bounds="ClientHello body 39 B (minimal), all body bytes symbolic; header shape concrete", funcs=_DH + ["parse_dtls_client_hello"], timeout=900, mem=20),
     H("c10", "c10_body_client_hello_44", bounds="ClientHello body 44 B, all body bytes symbolic", funcs=_DH + ["parse_dtls_client_hello"], timeout=1500, mem=24, tier="thorough"),
     H("c10", "c10_body_client_hello_shape", bounds="ClientHello body of concrete shape (2-byte cookie, 2 ciphers, 1 compression), contents symbolic; elements compared in order", funcs=_DH + ["parse_dtls_client_hello"], timeout=600),
@@ -354,10 +357,6 @@ reg("C16",
     H("c16", "c16_lemma_many1_complete", bounds="nom 7.1.3 many1(complete(p)) on a model parser with Copy output; buffer <= 8 B symbolic length (up to 8 elements)", funcs=["nom::multi::many1", "nom::combinator::complete"]),
     H("c16", "c16_lemma_many0_complete", bounds="nom 7.1.3 many0(complete(p)) on the same model parser; buffer <= 8 B", funcs=["nom::multi::many0", "nom::combinator::complete"]),
     H("c16", "c16_tls_parser_is_parse_tls_plaintext", bounds="<= 10 B symbolic length, all bytes symbolic; content dispatcher stubbed for both", stubs=["parse_tls_record_with_header"], funcs=["tls_parser", "parse_tls_plaintext"]),
-    H("c16", "c16_tls_parser_many_two_records", bounds="CCS record + alert record (13 B), payloads and record version symbolic, symbolic truncation point 0..=13", timeout=1200, mem=20,
-      stubs=["15 handshake body parsers (unreachable for these content types)"], funcs=["tls_parser_many", "parse_tls_plaintext"]),
-    H("c16", "c16_dtls_records_two_records", bounds="DTLS CCS record + alert record (29 B), payloads symbolic, symbolic truncation point 0..=29", timeout=1200, mem=20,
-      stubs=["6 DTLS handshake body parsers (unreachable for these content types)"], funcs=["parse_dtls_plaintext_records", "parse_dtls_plaintext_record"]),
     )
 
 # ------------------------------------------------------------------------------------------------ C17 (E1 part; E2 part in e2_props.py)
@@ -396,6 +395,12 @@ reg("C06",
     H("c06", "c06_ext_unknown", timeout=900, mem=12, bounds="one-byte-extension induction on a symbolic buffer (see harness for the size)", funcs=["ext_unknown"]),
     H("c06", "c06_dtls_msg_serverdone", timeout=900, mem=12, bounds="one-byte-extension induction on a symbolic buffer (see harness for the size)", funcs=["dtls_msg_serverdone"]),
     H("c06", "c06_dtls_msg_hello_verify_request", timeout=900, mem=12, bounds="one-byte-extension induction on a symbolic buffer (see harness for the size)", funcs=["dtls_msg_hello_verify_request"]),
+    H("c06", "c06_tag_early_data_len2", timeout=900, mem=12, bounds="single-purpose extension parser, type/declared length concrete, content + appended byte symbolic", funcs=["tag_early_data_len2"]),
+    H("c06", "c06_tag_early_data_len0", timeout=900, mem=12, bounds="single-purpose extension parser, type/declared length concrete, content + appended byte symbolic", funcs=["tag_early_data_len0"]),
+    H("c06", "c06_tag_status_request_len0", timeout=900, mem=12, bounds="single-purpose extension parser, type/declared length concrete, content + appended byte symbolic", funcs=["tag_status_request_len0"]),
+    H("c06", "c06_tag_max_fragment_length_len0", timeout=900, mem=12, bounds="single-purpose extension parser, type/declared length concrete, content + appended byte symbolic", funcs=["tag_max_fragment_length_len0"]),
+    H("c06", "c06_tag_supported_versions_len1", timeout=900, mem=12, bounds="single-purpose extension parser, type/declared length concrete, content + appended byte symbolic", funcs=["tag_supported_versions_len1"]),
+    H("c06", "c06_tag_cookie_len2", timeout=900, mem=12, bounds="single-purpose extension parser, type/declared length concrete, content + appended byte symbolic", funcs=["tag_cookie_len2"]),
     # pointer provenance (is_sub / span_is assertions) of the differential families, same bounds as there
     *_pick("C02", ["c02_raw_small", "c02_encrypted_small", "c02_plaintext_wiring"]),
     *_pick("C04", ["c04_certificate", "c04_certificate_status", "c04_next_protocol", "c04_e2e_certificate_status_5", "c04_e2e_next_protocol_4", "c04_dispatch_wiring"]),
@@ -405,6 +410,12 @@ reg("C06",
     *_pick("C14", ["c14_sct_single", "c14_sct_list_wiring"]),
     *_pick("C07", ["c07_lockstep_2_n3_1_2", "c07_heartbeat_e2e_cut0_pl1"]),
     )
+
+# the single-record parsers never return Failure and frame exactly (needed by the many1 lemma): C02/C10 wiring, C03 small records
+reg("C16", *_pick("C02", ["c02_plaintext_wiring", "c02_plaintext_ccs_2"]), *_pick("C10", ["c10_record_wiring_small", "c10_record_ccs"]))
+
+# single handshake messages inside a record: framing/dispatch and two representative bodies (C04 families)
+reg("C03", *_pick("C04", ["c04_dispatch_wiring", "c04_e2e_finished_3", "c04_e2e_new_session_ticket_6"]))
 
 # ------------------------------------------------------------------------------------------------ C01
 reg("C01",
